@@ -337,14 +337,13 @@ Section PathsCompose.
 
   Lemma print_line_compose : forall a fl exprs file idx e line,
     same_print_options a fl sp exprs ->
-    is_dash file = String.eqb file "-" ->
     (exists s, PathsPrint.hit_str (snd e) = Ok s) ->
     PathsPrint.print_line value_text sp fl (List.length exprs) file (Z.of_nat idx) e = Ok line ->
     paths_line a file idx (conv e) = inl (OPath line None).
   Proof.
-    intros a fl exprs file idx [expr h] line (SE & NF & NX & NP & VA & VF & NE & FS) DN [s HS].
+    intros a fl exprs file idx [expr h] line (SE & NF & NX & NP & VA & VF & NE & FS) [s HS].
     cbn [snd] in HS. unfold PathsPrint.print_line, paths_line, conv. cbn [fst snd].
-    rewrite SE, NF, NX, NP, VA, VF, NE, FS. unfold display_name. rewrite DN. unfold str_of_nat.
+    rewrite SE, NF, NX, NP, VA, VF, NE, FS. unfold display_name, is_dash. unfold str_of_nat.
     destruct (PathsPrint.pf_noyamlpath fl); cbn [negb andb orb bind].
     - intros E. inversion E. rewrite !append_nil_r. reflexivity.
     - destruct (PathsPrint.pf_noescape fl).
@@ -357,12 +356,11 @@ Section PathsCompose.
 
   Lemma print_compose : forall a fl exprs file idx es lines,
     same_print_options a fl sp exprs ->
-    is_dash file = String.eqb file "-" ->
     printable es ->
     mapM (PathsPrint.print_line value_text sp fl (List.length exprs) file (Z.of_nat idx)) es = Ok lines ->
     paths_print a file idx (map conv es) = (map (fun t => OPath t None) lines, None).
   Proof.
-    intros a fl exprs file idx es. induction es as [|e r IH]; intros lines SO DN P M.
+    intros a fl exprs file idx es. induction es as [|e r IH]; intros lines SO P M.
     - cbn in M. inversion M. reflexivity.
     - cbn [mapM] in M.
       destruct (PathsPrint.print_line value_text sp fl (List.length exprs) file (Z.of_nat idx) e) as [line| |] eqn:L;
@@ -370,8 +368,8 @@ Section PathsCompose.
       destruct (mapM _ r) as [ls| |] eqn:R; cbn [bind] in M; try discriminate.
       inversion M; subst lines.
       cbn [map paths_print].
-      rewrite (print_line_compose a fl exprs file idx e line SO DN (P e (or_introl eq_refl)) L).
-      rewrite (IH ls SO DN (fun x X => P x (or_intror X)) eq_refl). reflexivity.
+      rewrite (print_line_compose a fl exprs file idx e line SO (P e (or_introl eq_refl)) L).
+      rewrite (IH ls SO (fun x X => P x (or_intror X)) eq_refl). reflexivity.
   Qed.
 
   (* one loaded document, no --except, no --values: the glue's per-document step, fed with the
@@ -379,14 +377,13 @@ Section PathsCompose.
      state is 1 exactly when an expression was rejected *)
   Lemma paths_end_to_end : forall a fl exprs file idx lines bad,
     same_print_options a fl sp exprs ->
-    is_dash file = String.eqb file "-" ->
     hits_printable lit re_search mt sp o exprs d ->
     PathsPrint.process_doc lit re_search value_text mt sp o d fl exprs file (Z.of_nat idx) = Ok (lines, bad) ->
     exists nh,
       paths_docs a file [PDoc (results exprs d) []] idx 0 =
         ((if bad then 1 else 0), hints nh ++ map (fun t => OPath t None) lines, None).
   Proof.
-    intros a fl exprs file idx lines bad SO DN HP PD.
+    intros a fl exprs file idx lines bad SO HP PD.
     unfold PathsPrint.process_doc in PD.
     destruct (PathsPrint.collect lit re_search mt sp o d exprs [] false) as [[es b]| |] eqn:C;
       cbn [bind fst snd] in PD; try discriminate.
@@ -398,7 +395,7 @@ Section PathsCompose.
     exists nh. destruct es as [|e r].
     - cbn in M. inversion M. cbn [map]. reflexivity.
     - cbn [map]. change (conv e :: map conv r) with (map conv (e :: r)).
-      cbn [paths_except]. rewrite (print_compose a fl exprs file idx (e :: r) lines SO DN P M).
+      cbn [paths_except]. rewrite (print_compose a fl exprs file idx (e :: r) lines SO P M).
       cbn [map]. cbn [hints repeat app]. rewrite app_nil_r.
       destruct bad; reflexivity.
   Qed.
